@@ -618,6 +618,39 @@ func monC14(c *child.Ctx, replay json.RawMessage) {
 			}
 			syscall.Munmap(mem)
 		}
+		// the mirror image: the bytes IN FRONT of the field are inaccessible (the first
+		// page of the mapping), the field begins at or just behind the boundary
+		if mem, err := syscall.Mmap(-1, 0, 8192, syscall.PROT_READ|syscall.PROT_WRITE, syscall.MAP_ANON|syscall.MAP_PRIVATE); err == nil {
+			copy(mem[4096:], r.Bytes(4096))
+			if syscall.Mprotect(mem[:4096], syscall.PROT_NONE) == nil {
+				behind := mem[4096-16:]
+				vis := mem[4096:]
+				for startBit := uint(0); startBit < 40; startBit++ {
+					for width := uint(1); width <= 64; width++ {
+						for _, signed := range []bool{false, true} {
+							if signed && width < 2 {
+								continue
+							}
+							pos := 16*8 + startBit
+							k := bitsCase{Buf: "(16 inaccessible bytes)" + hexs(vis[:16]), Pos: pos, Width: width, Signed: signed}
+							cj := c.BeginV(k)
+							var want, got *big.Int
+							if signed {
+								want, got = ref.BitsBigSigned(vis, startBit, width), big.NewInt(utils.GetBitsAsInt64(behind, pos, width))
+							} else {
+								want, got = ref.BitsBig(vis, startBit, width), new(big.Int).SetUint64(utils.GetBitsAsUint64(behind, pos, width))
+							}
+							if got.Cmp(want) != 0 {
+								c.Violate("wrong-value", "extraction of "+mk2(pos, width, signed)+" from a buffer whose first 16 bytes are inaccessible returned "+got.String()+", the addressed bits are "+want.String(), cj)
+							}
+							c.Count("extractions_behind_inaccessible_bytes", 1)
+						}
+					}
+				}
+				syscall.Mprotect(mem[:4096], syscall.PROT_READ|syscall.PROT_WRITE)
+			}
+			syscall.Munmap(mem)
+		}
 		c.EvalN(1)
 	}
 	// large buffers: fields next to every multiple of 64 KiB (and of 16 MiB in the
